@@ -767,6 +767,9 @@ func (e *Env) call(c *ECall) Val {
 		// deref(p): content of the variable a pointer-to-non-struct designates (e.g. *s.coll)
 		a := arg(0)
 		pt, ok := a.Ty.Underlying().(*types.Pointer)
+		if !ok && a.Dyn != nil {
+			pt, ok = a.Dyn.Underlying().(*types.Pointer)
+		}
 		if !ok {
 			e.fail("deref of non-pointer")
 		}
